@@ -1271,6 +1271,14 @@ func (r *runner) generate(g *gen.G, cfg Cfg, bg bool, o genOpts) ([]Step, int, M
 		if info, pred := settle(4, 1); info != nil {
 			return info, pred
 		}
+		slow := g.R.Intn(2) == 0
+		if slow {
+			// let a dispatch cycle hand the task to its receiver first (state enqueued, claim window open)
+			now += cfg.SignalTimeout + 1
+			if info, pred := settle(4, 1); info != nil {
+				return info, pred
+			}
+		}
 		counter := 1
 		for _, t := range knownTasks() {
 			if t.Id == "__invoke:"+id {
@@ -1281,6 +1289,58 @@ func (r *runner) generate(g *gen.G, cfg Cfg, bg bool, o genOpts) ([]Step, int, M
 		rq.ClaimTask = &t_api.ClaimTaskRequest{Id: "__invoke:" + id, Counter: counter, ProcessId: pidW, Ttl: ttl}
 		if info, pred := do(Step{Op: "submit", Tid: tid, Req: canon.Req(rq)}); info != nil {
 			return info, pred
+		}
+		if slow {
+			// a slow worker on a slow store: the claim is admitted, its first read stays queued; the claim window
+			// of the enqueued task elapses and a lease sweep reads the task before the claim's update is written
+			// (submissions are executed in the order they were dispatched throughout)
+			execExcept := func(skip string) (M, bool) {
+				items := []Item{}
+				for _, h := range w.aio.pending {
+					if h.sqe.Submission.Kind == t_aio.Store && h.tid != skip {
+						items = append(items, Item{Tid: h.tid, Seq: h.seq, Mode: "ok"})
+					}
+				}
+				if len(items) == 0 {
+					return nil, false
+				}
+				return do(Step{Op: "exec", Items: items})
+			}
+			for k := 0; k < 3; k++ {
+				now++
+				if info, pred := do(Step{Op: "tick", T: now}); info != nil {
+					return info, pred
+				}
+				if info, pred := execExcept(tid); info != nil {
+					return info, pred
+				}
+			}
+			now += cfg.TaskEnqueueDelay + cfg.SignalTimeout + 1
+			if info, pred := do(Step{Op: "tick", T: now}); info != nil {
+				return info, pred
+			}
+			// both reads, in dispatch order; then the claim's write and the sweep's write, in dispatch order, as two batches
+			if info, pred := execExcept(""); info != nil {
+				return info, pred
+			}
+			now++
+			if info, pred := do(Step{Op: "tick", T: now}); info != nil {
+				return info, pred
+			}
+			only := []Item{}
+			for _, h := range w.aio.pending {
+				if h.sqe.Submission.Kind == t_aio.Store && h.tid == tid {
+					only = append(only, Item{Tid: h.tid, Seq: h.seq, Mode: "ok"})
+				}
+			}
+			if len(only) > 0 {
+				if info, pred := do(Step{Op: "exec", Items: only}); info != nil {
+					return info, pred
+				}
+			}
+			if info, pred := execExcept(tid); info != nil {
+				return info, pred
+			}
 		}
 		if info, pred := settle(3, 1); info != nil {
 			return info, pred
